@@ -132,6 +132,16 @@ def c_ite(x, t, e):
     return T
 
 
+def bv_const(v):
+    """integer value of a fully constant BV (two's complement if signed), else None"""
+    if any(c not in (0, 1) for c in v.b):
+        return None
+    x = sum(c << i for i, c in enumerate(v.b))
+    if v.signed and v.w > 1 and v.b[-1] == 1:
+        x -= 1 << v.w
+    return x
+
+
 def width_of_type(t):
     i = int_type_info(t)
     if i:
@@ -224,6 +234,8 @@ class Interp:
                 a = self.eval(n['inner'][0], env, depth)
                 sh = int_value(n['inner'][1])
                 if sh is None:
+                    sh = bv_const(self.eval(n['inner'][1], env, depth))
+                if sh is None:
                     return top_bv(a.w, a.signed)
                 if sh < 0 or sh >= a.w:
                     self.note(n, 'shift by %d is undefined for a %d-bit operand' % (sh, a.w))
@@ -234,6 +246,20 @@ class Interp:
                 return BV(a.w, a.b[sh:] + [fill] * sh, a.signed)
             if op == ',':
                 return self.eval(n['inner'][1], env, depth)
+            if op in ('+', '-', '*', '/', '%', '<', '>', '<=', '>=') or (op in ('==', '!=') ):
+                a = self.eval(n['inner'][0], env, depth)
+                b = self.eval(n['inner'][1], env, depth)
+                x, y = bv_const(a), bv_const(b)
+                if x is not None and y is not None and info is not None:
+                    try:
+                        r = {'+': lambda: x + y, '-': lambda: x - y, '*': lambda: x * y,
+                             '/': lambda: (abs(x) // abs(y)) * (1 if (x < 0) == (y < 0) else -1),
+                             '%': lambda: (abs(x) % abs(y)) * (1 if x >= 0 else -1),
+                             '<': lambda: int(x < y), '>': lambda: int(x > y), '<=': lambda: int(x <= y), '>=': lambda: int(x >= y),
+                             '==': lambda: int(x == y), '!=': lambda: int(x != y)}[op]()
+                        return const_bv(r & ((1 << info[0]) - 1), info[0], info[1])
+                    except ZeroDivisionError:
+                        return top_bv(info[0], info[1])
             if op in ('==', '!='):
                 a = self.eval(n['inner'][0], env, depth)
                 b = self.eval(n['inner'][1], env, depth)
@@ -267,6 +293,9 @@ class Interp:
             idx = canon(n['inner'][1])
             from guard import split_const
             ib, kk = split_const(idx)
+            ci = bv_const(self.eval(n['inner'][1], env, depth)) if int_value(n['inner'][1]) is None else None
+            if ci is not None:
+                ib, kk = '0', ci
             w = info[0] if info else 8
             sym = ('mem', base, ib, kk)
             return BV(w, [('i', sym, b) for b in range(w)], info[1] if info else False)
@@ -348,6 +377,12 @@ class Interp:
                 es = (list(kids(els)) if els is not None and els.get('kind') == 'CompoundStmt' else ([els] if els is not None else []))
                 tv = self.eval_block(ts + (rest if falls_through(then) else []), dict(env), depth)
                 ev = self.eval_block(es + (rest if (els is None or falls_through(els)) else []), dict(env), depth)
+                def _throws_only(b):
+                    return b is not None and not falls_through(b) and not any(x.get('kind') == 'ReturnStmt' for x in walk(b))
+                if tv is None and _throws_only(then):
+                    return ev
+                if ev is None and els is not None and _throws_only(els):
+                    return tv
                 if tv is None or ev is None:
                     return None
                 if c == 1:
